@@ -49,10 +49,13 @@ Definition p_truthy : predf := fun x =>                                         
   end.
 Definition p_notnone : predf := fun x => match x with VNone => Ok false | _ => Ok true end.
 
+Definition p_edges : predf := fun x =>                                                               (* x < 23 or x >= 44 *)
+  match x with VInt z => Ok ((z <? 23) || (44 <=? z)) | _ => terr end.
+
 Definition pred_of_code (c : Z) : option predf :=
   match c with
   | 0 => Some p_true | 1 => Some p_false | 2 => Some p_even | 3 => Some p_pos | 4 => Some p_isint
-  | 5 => Some p_truthy | 6 => Some p_notnone
+  | 5 => Some p_truthy | 6 => Some p_notnone | 7 => Some p_edges
   | _ => None
   end.
 
